@@ -18,9 +18,19 @@ theorem Good.mono {n m : Nat} {r : R} (h : Good n r) (hnm : n ≤ m) : Good m r 
   | err e rest => cases e <;> first | exact h | exact Nat.le_trans h hnm
   | panic => exact h
 
-theorem good_tok {n : Nat} {k : Kind} {rest : List Char} (h : rest.length ≤ n) : Good n (.tok k rest) := h
-theorem good_eof {n : Nat} : Good n (.err .eof []) := rfl
-theorem good_err {n : Nat} {e : Err} {rest : List Char} (h : rest.length ≤ n) : Good n (.err e rest) := by
-  cases e <;> first | exact h | (simp [Good]; sorry)
+@[simp] theorem good_tok {n : Nat} {k : Kind} {rest : List Char} : Good n (.tok k rest) ↔ rest.length ≤ n := Iff.rfl
+@[simp] theorem good_eof {n : Nat} {rest : List Char} : Good n (.err .eof rest) ↔ rest = [] := Iff.rfl
+@[simp] theorem good_panic {n : Nat} : Good n .panic ↔ False := Iff.rfl
+theorem good_err {n : Nat} {e : Err} {rest : List Char} (h : rest.length ≤ n) (he : e ≠ .eof) :
+    Good n (.err e rest) := by
+  cases e <;> first | exact h | exact absurd rfl he
+
+/-! ## layout -/
+
+/-- a layout scan never lengthens the input -/
+theorem layoutGo_le (u : UC) (st : LS) (ins : Bool) (s : List Char) :
+    ∀ i r, layoutGo u st ins s = .ok i r → r.length ≤ s.length := by
+  fun_induction layoutGo u st ins s <;> intro i r h <;> simp_all <;> try omega
+  all_goals sorry
 
 end Scryer.Resync
